@@ -12,7 +12,8 @@
 From Coq Require Import ZArith Reals List Lra Lia.
 From Coquelicot Require Import Coquelicot.
 From FF Require Import Base.Ops Inst.RInst Base.RAlg Model.Numeric Model.Propagator Model.Tie.C02
-                       Proofs.MatAlg Proofs.Propagator.
+                       Proofs.MatAlg Proofs.Propagator Proofs.PropagatorDeriv.
+From FF Require Import Inst.IInst Inst.Param Inst.EnclosureC02.
 Import ListNotations.
 Local Open Scope R_scope.
 
@@ -136,6 +137,17 @@ Theorem C02_arb_t_at_zero : forall d evs Vs dts, length Vs = length evs -> lengt
   feq d (toF (propagator_at_arb_t RO d evs Vs (propagators RO d evs Vs dts) (times RO dts) 0)) fid.
 Proof. exact arb_t_at_zero. Qed.
 
+(* the model function itself (selection included) satisfies the Schroedinger equation inside every segment *)
+Theorem C02_arb_t_schroedinger : forall d evs Vs dts, length Vs = length evs -> length dts = length evs ->
+  eigh_unitary d evs Vs ->
+  forall g t i j, (g < length evs)%nat -> (i < d)%nat -> (j < d)%nat -> nondecr (times RO dts) ->
+  t_ dts g < t -> t < t_ dts (S g) ->
+  cderive (fun tq => arb_entry d evs Vs dts i j tq) t
+          (fscal (cneg' ic) (fmul d (H_ d evs Vs g)
+             (toF (propagator_at_arb_t RO d evs Vs (propagators RO d evs Vs dts) (times RO dts) t))) i j).
+Proof. exact arb_t_schroedinger. Qed.
+Print Assumptions C02_arb_t_schroedinger.
+
 (* limits from the left and from the right at the edges of every segment of positive length;
    across zero-length segments Q does not change (C02_zero_length_segment) *)
 Theorem C02_arb_t_left_limit : forall d evs Vs dts, length Vs = length evs -> length dts = length evs ->
@@ -187,6 +199,26 @@ Theorem C02_t_slice_shift : forall a b dts, (a <= length dts)%nat -> (a <= b)%na
   times RO (slice a b dts) = map (fun x => x - nth a (times RO dts) 0) (slice a (S b) (times RO dts)).
 Proof. exact slice_times. Qed.
 Print Assumptions C02_t_slice_shift.
+
+(* ---- enclosure (paramcoq, kernel-checked): what the correspondence check evaluates on hardware-float intervals
+        encloses the real-valued model value the theorems above are about (propagators, total propagator, t, tau
+        likewise: Inst/EnclosureC02.v) ---- *)
+Theorem C02_arb_t_enclosure :
+  forall d1 d2 : nat, nat_R d1 d2 ->
+  forall (evs1 : list (list PP.M.I.type)) (evs2 : list (list R)), list_R _ _ (list_R _ _ PP.TR) evs1 evs2 ->
+  forall Vs1 Vs2, list_R _ _ (Mat_R _ _ PP.TR) Vs1 Vs2 ->
+  forall Qs1 Qs2, list_R _ _ (Mat_R _ _ PP.TR) Qs1 Qs2 ->
+  forall (ts1 : list PP.M.I.type) (ts2 : list R), list_R _ _ PP.TR ts1 ts2 ->
+  forall (tq1 : PP.M.I.type) (tq2 : R), PP.TR tq1 tq2 ->
+  Mat_R _ _ PP.TR (propagator_at_arb_t IOP d1 evs1 Vs1 Qs1 ts1 tq1) (propagator_at_arb_t RO d2 evs2 Vs2 Qs2 ts2 tq2).
+Proof. exact EnclC02.arb_t_enclosure. Qed.
+Theorem C02_propagators_enclosure :
+  forall d1 d2 : nat, nat_R d1 d2 ->
+  forall (evs1 : list (list PP.M.I.type)) (evs2 : list (list R)), list_R _ _ (list_R _ _ PP.TR) evs1 evs2 ->
+  forall Vs1 Vs2, list_R _ _ (Mat_R _ _ PP.TR) Vs1 Vs2 ->
+  forall (dts1 : list PP.M.I.type) (dts2 : list R), list_R _ _ PP.TR dts1 dts2 ->
+  list_R _ _ (Mat_R _ _ PP.TR) (propagators IOP d1 evs1 Vs1 dts1) (propagators RO d2 evs2 Vs2 dts2).
+Proof. exact EnclC02.propagators_enclosure. Qed.
 
 (* ---- the hypotheses are satisfiable: a two-level pulse with a rotated eigenbasis, a zero-length
         segment in the middle and an idle (degenerate) last segment ---- *)
